@@ -53,6 +53,7 @@ struct Teakra::Impl {
     void Reset() {
         std::memset(shared_memory.raw, 0, DspMemorySize);
         miu.Reset();
+        icu.Reset();
         apbp_from_cpu.Reset();
         apbp_from_dsp.Reset();
         timer[0].Reset();
